@@ -71,10 +71,17 @@ package content
 //@ pure succOf(p descriptor.Descriptor, s descriptor.Descriptor) bool
 //@
 //@ func Successors
-//@   trusted
-//@   ensures [content-addressed] result1 == nil ==> (forall i int :: 0 <= i && i < len(result0) ==> succOf(K(node), K(result0[i])))
-//@   ensures [content-addressed] result1 == nil ==> (forall s descriptor.Descriptor :: succOf(K(node), s) ==> (exists i int :: 0 <= i && i < len(result0) && K(result0[i]) == s))
-//@   modifies alloc, elems[ocispec.Descriptor], elems[byte]
+//@   requires [wf] fetcher != nil
+//@   assumes [content-addressed] result1 == nil ==> (forall i int :: 0 <= i && i < len(result0) ==> succOf(K(node), K(result0[i])))
+//@   assumes [content-addressed] result1 == nil ==> (forall s descriptor.Descriptor :: succOf(K(node), s) ==> (exists i int :: 0 <= i && i < len(result0) && K(result0[i]) == s))
+//@   call FetchAll requires [C07:reads-the-node-itself] args.desc == node && args.fetcher == fetcher
+//@   ensures@2 [C07:docker-manifest-edges-are-config-and-layers] len(result0) == 1 + len(manifest.Layers) && result0[0] == manifest.Config && (forall i int :: 0 <= i && i < len(manifest.Layers) ==> result0[i + 1] == manifest.Layers[i])
+//@   ensures@5 [C07:image-manifest-edges-are-subject-config-layers] len(result0) == (manifest.Subject != nil ? 1 : 0) + 1 + len(manifest.Layers) && (manifest.Subject != nil ==> result0[0] == *manifest.Subject) && result0[manifest.Subject != nil ? 1 : 0] == manifest.Config && (forall i int :: 0 <= i && i < len(manifest.Layers) ==> result0[(manifest.Subject != nil ? 1 : 0) + 1 + i] == manifest.Layers[i])
+//@   ensures@8 [C07:manifest-list-edges-are-its-manifests] result0 == index.Manifests
+//@   ensures@11 [C07:index-edges-are-subject-and-manifests] len(result0) == (index.Subject != nil ? 1 : 0) + len(index.Manifests) && (index.Subject != nil ==> result0[0] == *index.Subject) && (forall i int :: 0 <= i && i < len(index.Manifests) ==> result0[(index.Subject != nil ? 1 : 0) + i] == index.Manifests[i])
+//@   ensures@14 [C07:artifact-edges-are-subject-and-blobs] len(result0) == (manifest.Subject != nil ? 1 : 0) + len(manifest.Blobs) && (manifest.Subject != nil ==> result0[0] == *manifest.Subject) && (forall i int :: 0 <= i && i < len(manifest.Blobs) ==> result0[(manifest.Subject != nil ? 1 : 0) + i] == manifest.Blobs[i])
+//@   ensures [C07:other-media-types-have-no-edges] node.MediaType != "application/vnd.docker.distribution.manifest.v2+json" && node.MediaType != "application/vnd.oci.image.manifest.v1+json" && node.MediaType != "application/vnd.docker.distribution.manifest.list.v2+json" && node.MediaType != "application/vnd.oci.image.index.v1+json" && node.MediaType != "application/vnd.oci.artifact.manifest.v1+json" ==> result0 == nil && result1 == nil
+//@   modifies alloc, elems[ocispec.Descriptor], elems[byte], elems[any], ghost.delivered, ghost.atEOF, ghost.closedRC, ghost.present, ghost.readerOver, ghost.matched, ghost.digestOK, VerifyReader.err, VerifyReader.verified, io.LimitedReader.N
 //@
 //@ func NewDescriptorFromBytes
 //@   ensures [C19:descriptor-of-bytes] result.MediaType == (mediaType == "" ? "application/octet-stream" : mediaType) && result.Digest == digestOfBytes(content) && result.Size == len(content)
